@@ -797,6 +797,10 @@ def _already_listed(ev):
                 for x, y in ((a, b), (b, a)):
                     xs = getattr(x, "node", None)
                     is_cs = xs is not None and isinstance(xs, ast.Subscript) and (dotted(xs.value) or "").endswith("candidate_set")
+                    # `self.candidate_set.get(key, 0)` reads the same count (0 for a key not listed yet)
+                    if not is_cs and isinstance(xs, ast.Call) and isinstance(xs.func, ast.Attribute) and xs.func.attr == "get" and len(xs.args) == 2 \
+                            and (dotted(xs.func.value) or "").endswith("candidate_set") and const_int(xs.args[1]) == 0:
+                        is_cs = True
                     if is_cs and isinstance(y, Num) and y.lin == Lin.const(0) and pol is False:
                         return True
             if c[0] == "atom" and isinstance(c[1], tuple) and c[1][0] == "cmp" and c[1][1] in ("In", "NotIn"):
